@@ -177,7 +177,15 @@ ToPolar == form = "cart" /\ Step("ToPolar", "polar", PolarOf(rep), <<0, 0>>, <<0
 Merge == /\ form = "polar" /\ nd < MaxDelta
          /\ \E td \in DeltaTerms : \E dv \in Deltas(td) :
                Step("Merge", "polar", PolarOf(Added(CartOf(rep), td, dv)), td, dv, 1)
-Next == Standardize \/ ToCart \/ AddDelta \/ ToPolar \/ Merge
+\* a live probe model is handed coefficients AGAIN (probe_params assigned a second time): the term named in the new
+\* dictionary takes the new value under the same alias rule ('defocus' = -C10); what happens to the terms that are not
+\* named is not the property's business - the model keeps them and the replay compares only the named term
+Reassign == /\ form = "polar" /\ Len(hist) = 2
+            /\ \E td \in DOMAIN rep : \E uv \in ValsSmall(td) : \E sp \in {"c", "a"} :
+                  /\ (sp = "a" => td \in {<<1, 0>>, <<1, 2>>, <<2, 1>>, <<3, 0>>, <<5, 0>>})
+                  /\ LET nv == IF sp = "a" /\ td = <<1, 0>> /\ ~AliasBug THEN <<0 - uv[1], uv[2], uv[3]>> ELSE uv
+                     IN Step("Reassign", "polar", [rep EXCEPT ![td] = nv], td, <<uv[1], IF sp = "a" THEN 1 ELSE 0>>, 0)
+Next == Standardize \/ ToCart \/ AddDelta \/ ToPolar \/ Merge \/ Reassign
 Spec == Init /\ [][Next]_vars
 
 \* ---- properties ---------------------------------------------------------------------
@@ -188,6 +196,13 @@ MeaningLaw ==
       /\ last'.act \in {"AddDelta", "Merge"} =>
            Meaning(form', rep') = VecAdd(Meaning(form, rep), DeltaMeaning(last'.t, last'.dv)) ]_vars
 
+\* the re-assigned term means what the user wrote: C10 = -defocus under the alias spelling, the plain value otherwise
+ReassignLaw ==
+  [][ last'.act = "Reassign" =>
+        LET td == last'.t  k == last'.dv[1]  al == last'.dv[2] = 1
+            c == Coef("polar", td, rep'[td])
+            d == <<rep'[td][2], rep'[td][3]>>
+        IN c = IF al /\ td = <<1, 0>> THEN <<0 - (k * d[1]), 0 - (k * d[2])>> ELSE <<k * d[1], k * d[2]>> ]_vars
 PolarForm == form \in {"polar", "user_c"}
 SurfaceAgree == PolarForm => \A t \in DOMAIN rep : \A z \in Lat :
                    PolarSurf(t, rep[t], z) = Poly(t, Coef(form, t, rep[t]), z)
